@@ -1,6 +1,5 @@
 import Pendulum.Proofs.Cycle400
 import Pendulum.Gen.Helpers
-import Pendulum.Gen.RsHelpers
 /-! helper lemmas for Props/C15: periodicity of the *generated* helpers and the finite cycle facts -/
 namespace Pendulum.C15
 open Pendulum.Cal Pendulum
